@@ -294,7 +294,7 @@ def join_types(a: T.Ty, b: T.Ty) -> T.Ty | None:
 
 
 class State:
-    __slots__ = ("env", "heap", "alloc", "pc", "escaped", "ghost", "dead")
+    __slots__ = ("env", "heap", "alloc", "pc", "escaped", "ghost", "dead", "pyheap")
 
     def __init__(self):
         self.env: dict[str, Val] = {}
@@ -303,6 +303,7 @@ class State:
         self.pc: list = []
         self.escaped: set[str] = set()
         self.ghost: dict = {}
+        self.pyheap: dict = {}  # (object constant name, field) -> python-level Val (closures, classes, concrete containers)
         self.dead = False
 
     def copy(self) -> "State":
@@ -313,6 +314,7 @@ class State:
         s.pc = list(self.pc)
         s.escaped = set(self.escaped)
         s.ghost = dict(self.ghost)
+        s.pyheap = dict(self.pyheap)
         return s
 
     def assume(self, c):
